@@ -155,7 +155,9 @@ def gen_cases(ctx):
              merge=rng.choice([4096, 4, 6, 2]), ptype=rng.choice([1, 1, 2, 3]),
              dec_lr=bool(rng.below(2)), dec_wd=bool(rng.below(2)), eigh=bool(rng.below(3) == 0),
              lr=rng.choice([0.25, 0.125, 0.1]), lr_schedule=bool(rng.below(4) == 0),
-             hist=rng.choice(["int", "normal", "zero_some"]))
+             hist=rng.choice(["int", "normal", "zero_some", "scale"]))
+    # magnitude of the gradients for hist == "scale" (ridge / epsilon handling is scale dependent)
+    c["gscale"] = rng.choice([2.0 ** -10, 1e-3, 1e-2, 1e2, 1e3, 2.0 ** 10])
     cases.append(c)
   return cases
 
